@@ -7,7 +7,8 @@ Require Import EmbossV.Types.Model EmbossV.Types.Proofs EmbossV.Types.ProofsModu
         the modules derivable in the documented relation ---- *)
 (* [typecheck_sound_complete_statement] (Types.Model) :=
      forall G m, typecheck_module impl_table G m = MOk <-> well_typed_items G m. *)
-(* It is FALSE of the faithful model; four independent witnesses. *)
+(* It is FALSE of the faithful model; the one remaining witness is F13 (the other former
+   witnesses were repaired in /repo and are now positive theorems below). *)
 Theorem typecheck_sound_complete_refuted : ~ typecheck_sound_complete_statement.
 Proof. exact typecheck_sound_complete_refuted_lem. Qed.
 
@@ -17,23 +18,27 @@ Theorem refuted_enum_ordering :
   ~ well_typed_items G0 [ILet 0 (XFn FLt [XEnum 0 1; XEnum 0 1])].
 Proof. exact module_refuted_expr_lem. Qed.
 
-(* F14: a value of enum 1 passed for a formal of enum 0 is accepted *)
-Theorem refuted_enum_parameter :
-  typecheck_module impl_table G0 [IPass [TEnum 0] [XEnum 1 0]] = MOk /\
+(* repaired in /repo (f16208c, a932bcc, b329c65): a value of another enum for an enum formal,
+   a boolean enum value and a boolean actual for an integer formal are now REJECTED with a
+   message (no acceptance, no assertion) *)
+Theorem enum_parameter_of_other_enum_rejected :
+  typecheck_module impl_table G0 [IPass [TEnum 0] [XEnum 1 0]] = MErr 0 0 [] /\
   ~ well_typed_items G0 [IPass [TEnum 0] [XEnum 1 0]].
-Proof. exact module_refuted_enum_param_lem. Qed.
+Proof. exact enum_param_rejected_lem. Qed.
 
-(* new: an enum value may be a boolean (`AA = true`) *)
-Theorem refuted_enum_value :
-  typecheck_module impl_table G0 [IPos PEnumValue (XBool true)] = MOk /\
+Theorem boolean_enum_value_rejected :
+  typecheck_module impl_table G0 [IPos PEnumValue (XBool true)] = MErr 0 0 [] /\
   ~ well_typed_items G0 [IPos PEnumValue (XBool true)].
-Proof. exact module_refuted_enum_value_lem. Qed.
+Proof. exact enum_value_rejected_lem. Qed.
 
-(* F12: `$present(parameter)` is accepted, not derivable, and has no value *)
-Theorem refuted_present_parameter :
-  exists G e t, typecheck impl_table G e = TOk t /\ ~ has_type G e t /\
-    teval (mk_venv (fun _ => VInt 0) (fun _ => VInt 0) (fun _ => true) (fun _ => 0%Z) (fun _ => 0%Z)) e = None.
-Proof. exact present_param_refuted_lem. Qed.
+Theorem boolean_actual_rejected :
+  typecheck_module impl_table G0 [IPass [TInt] [XBool true]] = MErr 0 0 [].
+Proof. exact bool_param_rejected_lem. Qed.
+
+Theorem present_of_parameter_well_typed : forall G r i,
+  has_type G (XFn FPresent [XParam i]) TBool /\ typecheck impl_table G (XFn FPresent [XParam i]) = TOk TBool /\
+  teval r (XFn FPresent [XParam i]) = Some (VBool true).
+Proof. exact present_param_lem. Qed.
 
 (* ---- what does hold, for ALL expression trees and ALL modules ---- *)
 
@@ -54,9 +59,9 @@ Theorem module_complete : forall G m, well_typed_items G m -> typecheck_module i
 Proof. exact module_complete_lem. Qed.
 
 (* soundness + completeness outside the excluded class.  The guard is the boolean
-   [guard]/[mguard]: no ordering comparison of two enum values, no $present(parameter),
-   no enum value of non-integer type, no passed enum of a different enum / no actual for
-   an undeclarable formal. *)
+   [guard]/[mguard]: no ordering comparison of two enum values (F13); at module level also no
+   actual passed for a formal whose declared type has no value (such a declaration is itself
+   rejected). *)
 Theorem typecheck_sound_complete_partial : forall G e t,
   guard G e = true -> (typecheck impl_table G e = TOk t <-> has_type G e t).
 Proof. exact guard_doc_agree. Qed.
@@ -86,11 +91,10 @@ Theorem expression_error_site : forall T G e p,
   typecheck T G e = TErr p -> exists sub, subterm_at e p = Some sub.
 Proof. exact typecheck_err_site_lem. Qed.
 
-(* "never crashes": false of the faithful model (boolean passed for an integer parameter
-   reaches the assertion in _type_name_for_error_messages); true of the documented table *)
-Theorem rejects_without_crash_refuted :
-  typecheck_module impl_table G0 [IPass [TInt] [XBool true]] = MCrash 0.
-Proof. exact crash_witness_lem. Qed.
+(* "never crashes": the assertion in _type_name_for_error_messages is gone (b329c65): neither
+   table can reach a crash result, for any module *)
+Theorem impl_table_never_crashes : forall G m k, typecheck_module impl_table G m <> MCrash k.
+Proof. exact impl_no_crash_lem. Qed.
 
 Theorem doc_table_never_crashes : forall G m k, typecheck_module doc_table G m <> MCrash k.
 Proof. exact doc_no_crash_lem. Qed.
